@@ -145,6 +145,14 @@ PROPS = {
                    ' IOBase.check_connection): concurrency and time - no sequential contract in reach; line / block assembly evaluated (bounded)'],
         bounded=[CB('comm-contracts', 'contracts/comm.py', 'gens_comm', budget=120)],
     ),
+    'C06': dict(
+        contract_files=['contracts/describe.py'],
+        level='bounded',
+        trusted_base=COMMON_TRUSTED,
+        uncovered=['datainfo accepts / rejects exactly what the node does (that is C03 + C01 on the same datatype object), interface classes'
+                   ' and features, main-unit substitution: not covered here; description assembly has no deductive contract (strings, generated classes)'],
+        bounded=[CB('describe-contracts', 'contracts/describe.py', 'gens_describe')],
+    ),
     'C07': dict(
         contract_files=['contracts/protocol.py'],
         level='proof',
